@@ -356,8 +356,10 @@ def rule_take(ctx):
                 ok = True
         calls = [e.a for e in p.calls('_get_indices')]
         if calls:
-            b = dict(calls[0][3])
-            if calls[0][2][:1] != (P_('indices'),) or any(b.get(k) != P_(k) for k in ('axis', 'tol', 'keepdims', 'indexing')):
+            # (arguments compared by parameter: positional and keyword spellings of the internal call read the same)
+            gi_ = ctx.P.functions.get('dimarray.core.bases.AbstractHasAxes._get_indices')
+            b = bind_call_args(calls[0], gi_, method=True) if gi_ is not None else dict(calls[0][3], indices=calls[0][2][0] if calls[0][2] else None)
+            if any(b.get(k) != P_(k) for k in ('indices', 'axis', 'tol', 'keepdims', 'indexing')):
                 ctx.violated('R3', fi, T.show(calls[0])[:140], 'the dataset-level index resolution must receive indices, axis, tol, keepdims and indexing unchanged', node=p.node)
                 ok = False
         upd = [e for e in p.calls('update') if e.a[2] == (('attr', SELF, 'attrs'),)]
